@@ -23,7 +23,7 @@ ASSUMPTIONS = [
     'A-str: str()/f-string formatting of two distinct bias ratios (ints, floats, inf) gives distinct strings',
     'A-real for the direction formula',
     'slice of generate_input: statements outside the subset are dropped (listed per run in the evidence); the file name and direction do not depend on them (poisoning would make the obligation Unsupported)',
-    'floating point: the arithmetic progression of read_range_input is checked on a decimal grid only (bounded)',
+    'A-real: C19.range.* treat the floats of read_range_input as real numbers (proved: no value beyond max, all on the progression, none dropped); the float behaviour on a decimal grid is bounded only',
 ]
 TRUSTED_BASE = ['z3 5.1.0 (strings, reals)', 'pyvc executor (slice mode)']
 CLI = 'panqec/cli.py'
@@ -144,10 +144,54 @@ def ob_spec_fields(timeout=30):
                 functions=[dict(function=f.ref, sha256_16=f.sha) for f in s['funcs']], transparent=sorted(s['x'].transparent))
 
 
+def ob_range(which, timeout=60):
+    """arithmetic slice of read_range_input (the two assignments to n_steps and values of the `min:max:step` branch; dropped: the string splitting and float()
+    parsing) over REAL numbers: no value beyond max, every value on the progression min + i*step (the last one may be max itself when min + n*step overshoots by the
+    1e-9 slack), none of the floor((max-min)/step)+1 progression points <= max dropped, nothing raised"""
+    from pyvc.symex import X, St
+    m = Module.load(CLI); f = m.funcs['read_range_input']
+    br = [n for n in f.node.body if isinstance(n, ast.If) and "':' in specification" in ast.unparse(n.test)]
+    if len(br) != 1:
+        raise Unsupported('read_range_input has no `min:max:step` branch')
+    stmts = [s_ for s_ in br[0].body if isinstance(s_, ast.Assign) and isinstance(s_.targets[0], ast.Name) and s_.targets[0].id in ('n_steps', 'values')]
+    if [s_.targets[0].id for s_ in stmts] != ['n_steps', 'values']:
+        raise Unsupported('expected the assignments n_steps = ..., values = ...')
+    names = {n.id for s_ in stmts for n in ast.walk(s_) if isinstance(n, ast.Name) and isinstance(n.ctx, ast.Load)} - {'int', 'min', 'max', 'range', 'np', 'n_steps', 'i', 'float', 'len'}
+    if not names <= {'min_value', 'max_value', 'step'}:
+        raise Unsupported('slice reads %s' % sorted(names))
+    mn, mx, stp = z3.Reals('mn mx step')
+    q = z3.Real('q'); i = z3.Int('i'); k = z3.Int('k')
+    x = X(m, {})
+    env = {'min_value': mn, 'max_value': mx, 'step': stp}
+    pre = z3.And(stp > 0, mx >= mn, q * stp == mx - mn)          # q = (max-min)/step, named so that the solver sees one division
+    st = St(pre)
+    x.block(stmts, env, st)
+    vals = env['values']
+    if not isinstance(vals, Arr) or vals.rank != 1:
+        raise Unsupported('values is not a 1-D comprehension')
+    cnt = Z(vals.shape[0]); vi = Z(vals.f(i))
+    raised = z3.Or([c_ for c_, _, _ in st.raises] + [z3.BoolVal(False)])
+    base = [pre, i >= 0, i < cnt]
+    eps = z3.RealVal('1/1000000000')
+    if which == 'no_overshoot':
+        goal = base + [z3.Or(vi > mx, raised)]
+    elif which == 'on_progression':
+        goal = base + [z3.Not(z3.Or(vi == mn + z3.ToReal(i) * stp, z3.And(i == cnt - 1, vi == mx, mn + z3.ToReal(i) * stp - mx <= eps * stp, mn + z3.ToReal(i) * stp > mx)))]
+    elif which == 'none_dropped':
+        # every k with min + k*step <= max is an index of the list, and the list is no longer than that by more than the one slack element
+        goal = [pre, k >= 0, z3.Or(z3.And(mn + z3.ToReal(k) * stp <= mx, k >= cnt), z3.And(k < cnt, mn + z3.ToReal(k) * stp > mx + eps * stp), cnt < 1)]
+    else:
+        raise KeyError(which)
+    r = check(goal, timeout)
+    return result('range.' + which, r, [f], x, goal, detail='read_range_input over the reals: ' + which.replace('_', ' '))
+
+
 def obligations(tier):
     obs = [Ob('C19.files', ob_files, {}, timeout=90), Ob('C19.spec.fields', ob_spec_fields, {}, timeout=60)]
     for p in 'XYZ':
         obs.append(Ob('C19.direction[%s]' % p, ob_direction, dict(pauli=p), timeout=60))
+    for w in ('no_overshoot', 'on_progression', 'none_dropped'):
+        obs.append(Ob('C19.range.' + w, ob_range, dict(which=w), timeout=90))
     return obs
 
 
@@ -219,6 +263,19 @@ def native_range(mn, mx, st):
 
 
 def replay(r):
+    if '.range.' in r['name']:
+        from bounded.util import frac
+        m = r.get('model') or {}
+        try:
+            vals = [float(frac(m[k])) for k in ('mn', 'mx', 'step')]
+        except Exception:       # noqa
+            vals = None
+        tried = ([tuple(round(v, 6) for v in vals)] if vals and vals[2] > 1e-6 else []) + [(0.1, 0.2, 0.01), (0.1, 0.2, 0.03), (0.0, 0.5, 0.05), (0.05, 0.3, 0.1)]
+        for mn_, mx_, st_ in tried:
+            why = native_range(mn_, mx_, st_)
+            if why:
+                return dict(confirmed=True, input=dict(range=[mn_, mx_, st_]), detail=why)
+        return dict(confirmed=False, detail='read_range_input satisfies the range contract on the model values and 4 decimal ranges')
     if 'files' in r['name'] or 'spec' in r['name']:
         for etas in ('0.5,3', '1,10,inf', '0.5,1,3,10,30,100,inf'):
             for sizes in ('3x3,5x4x2,7', '3x3,5x5', '2x3x4,4x3x2'):          # the first one is the size list of the deductive obligation
